@@ -63,7 +63,7 @@ class Codec:
 
 
 # ---- operator variant -> real construction ("forms") -----------------------------------------------
-def forms_for(kind: Dict[str, Any], tie: str, napps: int) -> List[str]:
+def forms_for(kind: Dict[str, Any], tie: str, napps: int, once: bool = False) -> List[str]:
     """Names of the constructions of this variant that apply.  '+ts' = the replay subject delivers on
     the TestScheduler (same-instant hops; needs the 'src' order, see notes), otherwise it uses its
     default CurrentThreadScheduler and delivers synchronously."""
@@ -73,7 +73,7 @@ def forms_for(kind: Dict[str, Any], tie: str, napps: int) -> List[str]:
         scheds = []
         if kind["w"] == NONE_P:
             scheds.append("")
-        if tie == "src":
+        if tie == "src" and not once:      # a self-unsubscribing subscriber reacts synchronously in the model
             scheds.append("+ts")
     else:
         scheds = [""]
@@ -90,6 +90,11 @@ def forms_for(kind: Dict[str, Any], tie: str, napps: int) -> List[str]:
         if wr == "ref_count" and sk == "plain":
             out.append("share")                  # share() = publish + ref_count in one operator
     return out
+
+
+def _ops():
+    from reactivex import operators as ops
+    return ops
 
 
 def _mapper(mp: str):
@@ -218,7 +223,8 @@ def perform(scn: Dict[str, Any], *, form: str, profile: str = "plain", salt: int
         if c == "sub":
             rec = out.setdefault(k, [])
             kw = {"scheduler": ts} if sub_sched else {}
-            handles[k] = ys[a].subscribe(on_next=lambda v, r=rec: r.append((secs(ts.clock), "N", v)),
+            target = ys[a].pipe(_ops().take(1)) if cmd.get("m", "all") == "once" else ys[a]
+            handles[k] = target.subscribe(on_next=lambda v, r=rec: r.append((secs(ts.clock), "N", v)),
                                          on_error=lambda x, r=rec: r.append((secs(ts.clock), "E", x)),
                                          on_completed=lambda r=rec: r.append((secs(ts.clock), "C", None)), **kw)
         elif c == "unsub":
@@ -315,6 +321,10 @@ def compare(scn, obs, got) -> Optional[str]:
         if g != row:
             return f"out:subscriber {k} got {g} expected {row}"
     return None
+
+
+def has_once(scn) -> bool:
+    return any(c.get("m", "all") == "once" for c in seq(scn["hist"]))
 
 
 def witnesses(scn) -> Dict[str, Any]:
